@@ -167,13 +167,15 @@ def analyse_client(case, ir):
                 if busy[k] > 0:
                     out.append(Finding("reaper_closed_busy", "the reaper pass at %d closed session %d, which carries %d live stream(s)" % (t, k, busy[k]),
                                        never_reused=int(not reused[k]), session=k, min_idle=M))
-            # sessions the pool must still hold after the pass: live, idle (no stream), never handed out for reuse (a reused
+            # sessions the pool must still hold after the pass: live and never handed out for reuse (a reused
             # session has left the idle map for good: known finding F3). The reaper may close such a session only beyond the
             # first min_idle of them -- a dead entry does not count towards the minimum
-            cand_after = [k for k in range(min(nsess, len(flags))) if not flags[k] and busy[k] == 0 and not reused[k]]
-            cand_closed = [k for k in newly if busy[k] == 0 and not reused[k]]
+            # (whether such a session carries a stream is immaterial here: the idle map also holds sessions with their
+            # first stream open, known finding F2 -- what the pass closes among them is judged by reaper_closed_busy)
+            cand_after = [k for k in range(min(nsess, len(flags))) if not flags[k] and not reused[k]]
+            cand_closed = [k for k in newly if not reused[k]]
             if cand_closed and len(cand_after) < min(M, len(cand_after) + len(cand_closed)):
-                out.append(Finding("min_idle", "the reaper pass at %d closed the healthy idle session(s) %s and left %d healthy idle session(s) in all; "
+                out.append(Finding("min_idle", "the reaper pass at %d closed the healthy pooled session(s) %s and left %d healthy pooled session(s) in all; "
                                    "min_idle=%d of them must stay (a dead session in the pool does not count)" % (t, cand_closed, len(cand_after), M)))
             lb = max(0, prev_idle - dead_unpurged)
             if idle < min(M, lb):
@@ -364,6 +366,28 @@ def gen_burst_then_seq(r):
         for q in range(k + j):
             t = _avoid_ticks(t + 4, I); ops.append((t, "d%d" % q))
     ops = with_ticks(I, ops, 0)
+    return [I, T, M] + ["%d:%s" % (a, b) for a, b in ops]
+
+
+def gen_dead_idle_then_quiet(r):
+    """k overlapping requests (all complete, all streams finished): k sessions sit in the pool, none ever reused; some of the
+    OLDER ones die while idle; then nothing happens for longer than the idle timeout. The reaper must keep min_idle HEALTHY
+    sessions (a dead entry does not count towards the minimum) and the next request is served without a dial (seed C13-6)"""
+    I, T, M = r.choice([1000, 3000, 10000]), r.choice([2000, 5000, 20000]), r.choice([1, 1, 2])
+    k = r.randint(2, 4)
+    t, ops = r.choice([7, 500]), []
+    for _ in range(k):
+        t = _avoid_ticks(t + r.choice([3, 10, 40]), I); ops.append((t, "a"))
+    for _ in range(k):
+        t = _avoid_ticks(t + r.choice([3, 10, 40]), I); ops.append((t, "c"))
+    for j in range(k):
+        t = _avoid_ticks(t + r.choice([5, 50]), I); ops.append((t, "d%d" % j))
+    for j in range(r.randint(1, k - 1)):
+        t = _avoid_ticks(t + r.choice([5, 50]), I); ops.append((t, "x%d" % j))          # the oldest die
+    t = _avoid_ticks(t + T + 2 * I + r.choice([7, 333]), I)
+    ops.append((t, "r"))
+    t = _avoid_ticks(t + 20, I); ops.append((t, "D"))
+    ops = with_ticks(I, ops, I)
     return [I, T, M] + ["%d:%s" % (a, b) for a, b in ops]
 
 
